@@ -161,7 +161,7 @@ func decodePacked6BitAscii(b []byte, c int) (string, int, error) {
 }
 
 func decode8BitAsciiLatin1(b []byte, c int) (string, int, error) {
-	if len(b) < 2 {
+	if c > 0 && len(b) < 2 {
 		// it is unclear why this limitation exists, but it's plain to
 		// see in the specification
 		return "", 0, fmt.Errorf("at least 2 bytes of data must be present; got %v bytes", len(b))
